@@ -414,7 +414,7 @@ func runC16() {
 			}
 		}
 		for _, k := range []string{"", "level", "message", "time", "caller", "error", "k 0", "é", "a=b"} {
-			for _, v := range []interface{}{"s", "two words", `q"`} {
+			for _, v := range []interface{}{"s", "two words", `q"`, `b\s`, "é", "\x7f", "t\tb", "a=b", ""} {
 				f := seqx.Field{M: "Str", Key: k, Val: v}
 				render(mk(tsStep, entryInfo, []seqx.Field{f, {M: "Int", Key: "k1", Val: 5}}, msgM))
 				render(mk(tsStep, seqx.Entry{Kind: "Error"}, []seqx.Field{errF, f}, msgM))
